@@ -236,8 +236,25 @@ class C11(SessimProp):
             return out
         brd = bres["steps"][0]["rounds"][0]
         bval, boc = value_text(final_response(brd))
-        if boc[0] != "ok" or bval is None or brd["budget_exceeded"]:
-            bump("batch_not_error_free(skipped):" + boc[0])
+        if brd["budget_exceeded"]:
+            bump("batch_step_budget_exceeded(skipped)")
+            return out
+        if boc[0] != "ok" or bval is None:
+            # Not error-free as one program.  Then it must not be error-free incrementally either:
+            # a history whose every input succeeds on its own but which fails when submitted together
+            # reports a different value for the last input (an error instead of a value).
+            got, res, steps = self.run_config(ex, case, False)
+            out["evaluations"] += 1
+            if got not in (None, "dead") and not any(rd["budget_exceeded"] for s in res["steps"] for rd in s["rounds"]) \
+                    and all(outcome(line)[0] == "ok" for (line, _, _, _) in got) and value_text(got[-1][0])[0] is not None:
+                out["violations"].append({
+                    "class": "batch-error", "key": "C11:fault_free:batch-error",
+                    "detail": f"every input succeeds incrementally (last value {value_text(got[-1][0])[0]!r}) but the same inputs "
+                              f"submitted as one program answer {boc}",
+                    "replay": {"case": case, "faulty": False}})
+                out["sample"] = {"inputs": [" ".join(i)[:200] for i in case["inputs"]], "batch_value": None, "fault_plan": []}
+                return out
+            bump("not_error_free_either_way(skipped):" + boc[0])
             return out
         bprinted = printed(brd)
         out["sim_steps"] += brd["steps"]
